@@ -37,8 +37,22 @@ def call_entry(entry, text, language=None, filename=None):
     raise ValueError(entry)
 
 
-def outcome(entry, text, language=None, filename=None, timeout=5.0):
-    """-> (obs, result): obs = {"k": accept|error|internal|timeout, "n": line, "exc": type, "at": function}"""
+def parser_call(parser, entry, text):
+    """the public methods of ONE Parser object (behave re-uses feature.parser for every context.execute_steps())"""
+    if entry == "feature":
+        return parser.parse(text)
+    if entry == "steps":
+        return parser.parse_steps(text)
+    if entry == "scenario":
+        return parser.parse_scenario(text)
+    if entry == "rule":
+        return parser.parse_rule(text)
+    raise ValueError(entry)
+
+
+def outcome(entry, text, language=None, filename=None, timeout=5.0, parser=None):
+    """-> (obs, result): obs = {"k": accept|error|internal|timeout, "n": line, "exc": type, "at": function}
+    parser: an existing Parser object to call instead of the module level entry point"""
     from behave.parser import ParserError
     obs = {"k": "accept", "n": 0, "exc": "", "at": ""}
     result = None
@@ -46,7 +60,10 @@ def outcome(entry, text, language=None, filename=None, timeout=5.0):
     signal.setitimer(signal.ITIMER_REAL, timeout)
     try:
         try:
-            result = call_entry(entry, text, language, filename)
+            if parser is not None:
+                result = parser_call(parser, entry, text)
+            else:
+                result = call_entry(entry, text, language, filename)
         finally:
             signal.setitimer(signal.ITIMER_REAL, 0)
     except ParserError as e:
